@@ -158,13 +158,15 @@ Definition err_eqb (x y : err) : bool :=
      7  destination has no owner but the message was not answered by NameHasNoOwner / ServiceUnknown (C05)
      8  a message to an existing owner was refused without one of the reasons the documentation gives: unrequested reply
         under the restrictive policy (AccessDenied), fds (NotSupported), same serial still outstanding towards that
-        callee (AccessDenied), max_replies_per_connection open calls (LimitsExceeded)  (C05 "is delivered", C09 "iff") *)
+        callee (AccessDenied), max_replies_per_connection open calls or a full outgoing queue of the recipient (LimitsExceeded)
+        (C05 "is delivered", C09 "iff") *)
 Fixpoint has_dup (l : list N) : bool :=
   match l with [] => false | x :: l' => existsb (N.eqb x) l' || has_dup l' end.
 
 (* [eaves]: the connections that hold an eavesdrop match rule matching this message (from the shared matcher of Routing.v;
    match-rule semantics are property C07) *)
-Definition oracle_step (cf : cfg) (tr : trace) (owner : option N) (eaves : list N) (e : event) (o : out) : N :=
+(* [full]: the addressed recipient is stalled with its queue at the bus over max_outgoing_bytes (harness-controlled fact) *)
+Definition oracle_step (cf : cfg) (tr : trace) (owner : option N) (eaves : list N) (full : bool) (e : event) (o : out) : N :=
   let T := reply_timeout cf in
   match e with
   | ESend c m =>
@@ -197,7 +199,7 @@ Definition oracle_step (cf : cfg) (tr : trace) (owner : option N) (eaves : list 
                    else if unrequested then (if err_eqb x EAccessDenied || (err_eqb x ENotSupported && (0 <? m_nfds m)) then 0 else 5)
                    else if err_eqb x ENotSupported then (if 0 <? m_nfds m then 0 else 8)
                    else if err_eqb x EAccessDenied then (if wants_slot && is_open T tr c w (m_serial m) then 0 else 8)
-                   else if err_eqb x ELimitsExceeded then (if wants_slot && (max_replies cf <=? N.of_nat others) then 0 else 8)
+                   else if err_eqb x ELimitsExceeded then (if full || wants_slot && (max_replies cf <=? N.of_nat others) then 0 else 8)
                    else 8
                end
       | _ => 2
